@@ -827,9 +827,10 @@ def handleBdat (s : S) (arg : Bytes) : S × Bool :=
               (if r == .panic then fail s errPanic else fail s (pipeWriteErr r))
             | .done =>
               let s := { s with c := { s.c with bytesReceived := s.c.bytesReceived + size } }
+              -- the chunk has been read: what follows is a command line again
+              let s := { s with w := { s.w with limit := s.cfg.maxLine } }
               if !last then (reply s 250 ⟨2, 0, 0⟩ "Continue", false)
               else
-                let s := { s with w := { s.w with limit := s.cfg.maxLine } }
                 -- bdatPipe.Close(): the backend's reader sees EOF
                 let s := if delivRunning s k then delivFinish s k .eof else s
                 let r := delivRet s k
